@@ -55,7 +55,3 @@ Theorem C08_new_stream_shape : skel_tunnelChannel_newStream =
   ["call streamCreation.Lock"; "defer call streamCreation.Unlock"; "call allocateStream"; "call stream.Send"; "call removeStream"; "go func"].
 Proof. exact tunnelChannel_newStream_shape. Qed.
 Print Assumptions C08_new_stream_shape.
-Theorem C08_allocate_shape : skel_tunnelChannel_allocateStream =
-  ["call mu.Lock"; "defer call mu.Unlock"; "set streamCreated"; "set lastStreamID"; "set streams"].
-Proof. exact tunnelChannel_allocateStream_shape. Qed.
-Print Assumptions C08_allocate_shape.
